@@ -2,6 +2,7 @@ import PelModel.Cli
 import PelModel.Main
 import PelProofs.Cli
 import PelProofs.Main
+import PelProofs.Top
 /-
   C11 — Only delete options remove files, and only the files they name.
   In the model a directory is the list of its top-level regular files; the read-only modes (`listMode`, `allMode`,
@@ -216,5 +217,212 @@ example : dispatch fsDemo { path := some (s "/pels"), srcExclude := some (s "/mi
 example : (dispatch fsDemo { deleteAll := true }).1 = .exitMsg .noPath := by decide
 example : (dispatch fsDemo { path := some (s "/pels") }).1 = .nothing ∧ mainExit .nothing = 0 := by decide
 example : mainExit (dispatch fsDemo { deleteAll := true }).1 = 1 := by decide
+
+/-! ### the WHOLE command: `runMain` = `dispatch` followed by the mode it names, on a `World` (model: PelModel/Top.lean) -/
+
+/-- a file `--json` writes: `<pel file>.<entry id>.json`, holding the document of a decodable, selected top-level file of the directory -/
+def IsJsonOutput (env : Env) (cfg : SelCfg) (d : Dir) (g : FileEntry) : Prop :=
+  ∃ f ∈ d, ∃ eid j, parsePEL env cfg f.data = .doc eid j ∧
+    g = { name := f.name ++ [46] ++ eid ++ s ".json", data := prettyPrint 34 (dumps j) }
+
+/-- `w'` differs from `w` at most by `--json` output files: nothing disappears, every file keeps its content unless it is (over)written as
+    such an output, and whatever is new — in the `-p` directory or in the `-o` directory — is such an output -/
+structure OnlyJsonAdded (env : Env) (cfg : SelCfg) (w w' : World) : Prop where
+  pathIsDir : w'.pathIsDir = w.pathIsDir
+  subdirs : w'.subdirs = w.subdirs
+  file : w'.file = w.file
+  exclude : w'.exclude = w.exclude
+  dirKeeps : ∀ f ∈ w.dir, ∃ g ∈ w'.dir, g.name = f.name ∧ (g = f ∨ IsJsonOutput env cfg w.dir g)
+  dirNew : ∀ g ∈ w'.dir, g ∈ w.dir ∨ IsJsonOutput env cfg w.dir g
+  outSome : w'.out.isSome = w.out.isSome
+  outKeeps : ∀ od od', w.out = some od → w'.out = some od' →
+    ∀ f ∈ od, ∃ g ∈ od', g.name = f.name ∧ (g = f ∨ IsJsonOutput env cfg w.dir g)
+  outNew : ∀ od od', w.out = some od → w'.out = some od' → ∀ g ∈ od', g ∈ od ∨ IsJsonOutput env cfg w.dir g
+
+theorem OnlyJsonAdded.refl (env : Env) (cfg : SelCfg) (w : World) : OnlyJsonAdded env cfg w w where
+  pathIsDir := rfl
+  subdirs := rfl
+  file := rfl
+  exclude := rfl
+  dirKeeps := fun f hf => ⟨f, hf, rfl, Or.inl rfl⟩
+  dirNew := fun _ hg => Or.inl hg
+  outSome := rfl
+  outKeeps := fun od od' h h' f hf => by
+    rw [h] at h'; cases h'; exact ⟨f, hf, rfl, Or.inl rfl⟩
+  outNew := fun od od' h h' g hg => by
+    rw [h] at h'; cases h'; exact Or.inl hg
+
+/-- the `-j` branch without `--clean`, for every directory content -/
+theorem jsonBranch_only_adds (env : Env) (c : MainCfg) (act : Action) (p out : Text) (w : World) :
+    OnlyJsonAdded env c.sel w (jsonBranch env c act p out false w).world ∧
+    (out ≠ p → (jsonBranch env c act p out false w).world.dir = w.dir) := by
+  have hrm : (jsonMode env c.opts false w.dir).removed = [] := (json_removes_only env c.opts false w.dir).1 rfl
+  have hcr : ∀ q ∈ (jsonMode env c.opts false w.dir).created, IsJsonOutput env c.sel w.dir { name := q.1, data := q.2 } := by
+    intro q hq
+    obtain ⟨f, hf, eid, j, hdoc, hq'⟩ := json_creates_only env c.opts false w.dir q hq
+    exact ⟨f, hf, eid, j, hdoc, by rw [hq']⟩
+  unfold jsonBranch
+  simp only [hrm, removeNames_nil]
+  by_cases ho : out = p
+  · simp only [ho, if_true, ne_eq, not_true_eq_false, false_implies, and_true]
+    refine ⟨rfl, rfl, rfl, rfl, ?_, ?_, rfl, ?_, ?_⟩
+    · intro f hf
+      obtain ⟨g, hg, hn, hor⟩ := writeFiles_keeps (l := (jsonMode env c.opts false w.dir).created) hf
+      refine ⟨g, hg, hn, ?_⟩
+      rcases hor with h | ⟨q, hq, h⟩
+      · exact Or.inl h
+      · exact Or.inr (h ▸ hcr q hq)
+    · intro g hg
+      rcases mem_writeFiles hg with h | ⟨q, hq, h⟩
+      · exact Or.inl h
+      · exact Or.inr (h ▸ hcr q hq)
+    · intro od od' h h' f hf
+      rw [h] at h'; cases h'; exact ⟨f, hf, rfl, Or.inl rfl⟩
+    · intro od od' h h' g hg
+      rw [h] at h'; cases h'; exact Or.inl hg
+  · simp only [ho, if_false, ne_eq, not_false_eq_true, forall_const, and_true]
+    refine ⟨rfl, rfl, rfl, rfl, ?_, ?_, ?_, ?_, ?_⟩
+    · exact fun f hf => ⟨f, hf, rfl, Or.inl rfl⟩
+    · exact fun _ hg => Or.inl hg
+    · simp
+    · intro od od' h h' f hf
+      simp only [h, Option.map_some, Option.some.injEq] at h'
+      subst h'
+      obtain ⟨g, hg, hn, hor⟩ := writeFiles_keeps (l := (jsonMode env c.opts false w.dir).created) hf
+      refine ⟨g, hg, hn, ?_⟩
+      rcases hor with h1 | ⟨q, hq, h1⟩
+      · exact Or.inl h1
+      · exact Or.inr (h1 ▸ hcr q hq)
+    · intro od od' h h' g hg
+      simp only [h, Option.map_some, Option.some.injEq] at h'
+      subst h'
+      rcases mem_writeFiles hg with h1 | ⟨q, hq, h1⟩
+      · exact Or.inl h1
+      · exact Or.inr (h1 ▸ hcr q hq)
+
+/-- ★ the whole command is read-only unless asked otherwise — for ALL decoder environments, command lines, worlds and fault plans:
+    (1) a command line without (non-empty) `-d`, without `-D`, without `--clean` and without `--json` leaves the world exactly as it was
+        (the `-p` directory's files and their order, its subdirectories, the `-f` file, the exclude file, the output directory);
+    (2) with `--json` and without `--clean` nothing disappears and nothing changes except that files named `<pel file>.<entry id>.json`,
+        holding the document of a decodable selected top-level file, appear (or are overwritten) in the output directory — which is the
+        `-p` directory itself only if `-o` is absent or names it: with `-o` naming another directory the `-p` directory is unchanged -/
+theorem command_readonly (fault : Nat → Bool) (env : Env) (a : Args) (w : World) :
+    (truthy a.delete = false → a.deleteAll = false → a.clean = false → a.json = false →
+      (runMainF fault env a w).world = w) ∧
+    (a.json = true → a.clean = false →
+      OnlyJsonAdded (env.withCfg (mkConfig severityGroupTable a)) (mkConfig severityGroupTable a).sel w (runMainF fault env a w).world ∧
+      (∀ o, tv a.outputDir = some o → tv a.path ≠ some o → (runMainF fault env a w).world.dir = w.dir)) := by
+  constructor
+  · intro hd hD hc hj
+    have hro := (main_readonly_without_delete_clean (w.fsView a) a hd hD hc).2.2.2.2
+    have hnj : ∀ p o, (dispatch (w.fsView a) a).1 ≠ .jsonMode p o false := by
+      intro p o he
+      rw [dispatch_json_inv he] at hj
+      exact absurd hj (by decide)
+    exact runAction_world_readonly fault _ w _ _ hro hnj
+  · intro hj hc
+    have h := dispatch_chain (w.fsView a) a
+    rw [runMainF_of_chain h]
+    generalize (dispatch (w.fsView a) a).1 = act at h
+    generalize (dispatch (w.fsView a) a).2.sel.lookup = lk at h
+    cases h
+    case file f hf =>
+      rw [hc]
+      have : (runAction fault (env.withCfg (cfgOf a false)) w (.fileMode f false) (cfgOf a false)).world = w :=
+        fileBranch_noclean_world fault _ _ f w
+      rw [this]
+      exact ⟨OnlyJsonAdded.refl _ _ w, fun _ _ _ => rfl⟩
+    case noPath => exact ⟨OnlyJsonAdded.refl _ _ w, fun _ _ _ => rfl⟩
+    case notDir => exact ⟨OnlyJsonAdded.refl _ _ w, fun _ _ _ => rfl⟩
+    case jsonNoOut => exact ⟨OnlyJsonAdded.refl _ _ w, fun _ _ _ => rfl⟩
+    case jsonOut p o hf hp hd _ ho hod =>
+      rw [hc]
+      obtain ⟨h1, h2⟩ := jsonBranch_only_adds (env.withCfg (cfgOf a false)) (cfgOf a false) (.jsonMode p o false) p o w
+      refine ⟨h1, fun o' ho' hne => h2 ?_⟩
+      rw [ho] at ho'
+      cases ho'
+      intro heq
+      exact hne (heq ▸ hp)
+    case jsonIn p hf hp hd _ ho =>
+      rw [hc]
+      obtain ⟨h1, _⟩ := jsonBranch_only_adds (env.withCfg (cfgOf a false)) (cfgOf a false) (.jsonMode p p false) p p w
+      refine ⟨h1, fun o' ho' _ => ?_⟩
+      rw [ho] at ho'
+      cases ho'
+    all_goals simp_all
+
+/-- ★ the delete options remove exactly what they name — at the level of the whole command, when the delete option is REACHED (`-p` names a
+    directory and no option of higher priority is on the command line):
+    `-d E`: the new world is the old one, or the old one minus ONE top-level regular file of the `-p` directory whose name contains the
+    processed id (everything else — the other files and their order, the subdirectories, the `-f` / exclude / output files — is as it was);
+    `-D` (no non-empty `-d`): exactly the top-level regular files are gone; the subdirectory names and everything else are unchanged -/
+theorem command_delete_exact (fault : Nat → Bool) (env : Env) (a : Args) (w : World) (p : Text)
+    (hh : a.NoHigherMode) (hnd : a.NoDisplayMode) (hp : tv a.path = some p) (hd : w.pathIsDir = true) :
+    (∀ e, tv a.delete = some e →
+      (runMainF fault env a w).world = w ∨
+      ∃ pid f, processId e = some pid ∧ f ∈ w.dir ∧ isInfix pid f.name = true ∧
+        (runMainF fault env a w).world = { w with dir := w.dir.erase f }) ∧
+    (tv a.delete = none → a.deleteAll = true → (runMainF fault env a w).world = { w with dir := [] }) := by
+  constructor
+  · intro e he
+    rw [runMainF_of_chain (chain_delete hh hnd hp hd he)]
+    show ({ w with dir := (deleteMode e w.dir).2 } : World) = w ∨ _
+    rcases delete_at_most_one e w.dir with h | ⟨pid, f, h1, h2, h3, h4⟩
+    · left; rw [h]
+    · right; exact ⟨pid, f, h1, h2, h3, by show ({ w with dir := (deleteMode e w.dir).2 } : World) = _; rw [h4]⟩
+  · intro he hD
+    rw [runMainF_of_chain (chain_deleteAll hh hnd hp hd he hD)]
+    rfl
+
+/-- `--json` as composed (`jsonMode` on the directory) visits exactly the files for which `main()` calls `parseAndWriteOutput` (`jsonCalls`
+    on the names `os.walk` yields), in the same order, with the output directory and the delete flag `dispatch` computed -/
+theorem command_json_calls (a : Args) (w : World) (p out : Text) (clean : Bool)
+    (h : (dispatch (w.fsView a) a).1 = .jsonMode p out clean) :
+    jsonCalls (dispatch (w.fsView a) a).2 (w.dir.map (·.name)) (dispatch (w.fsView a) a).1 =
+      (w.dir.filter (fun f => match (dispatch (w.fsView a) a).2.opts.ext with
+        | some e => if e = [] then true else splitext f.name == e
+        | none => true)).map fun f => (pathJoin p f.name, out, clean) := by
+  rw [h]
+  exact jsonMode_inputs_are_jsonCalls _ (dispatch_ext_ne _ a) w.dir p out clean
+
+/-! Non-vacuity (concrete command lines on `wDemo`: `/pels` holds `junk`, `x_50000001` and the subdirectory `archive`). -/
+
+-- `-p /pels -l -D -d 50000001` : read-only, whatever the files contain
+example : (runMain envDemo { path := some (s "/pels"), list := true } wDemo).world = wDemo :=
+  (command_readonly noFault envDemo _ wDemo).1 (by decide) (by decide) (by decide) (by decide)
+-- `-p /pels -D` : both files gone, `archive` and everything else untouched
+example : (runMain envDemo { path := some (s "/pels"), deleteAll := true } wDemo).world = { wDemo with dir := [] } := by decide
+example : (runMain envDemo { path := some (s "/pels"), deleteAll := true } wDemo).world.subdirs = [s "archive"] := by decide
+-- `-p /pels -d 0x50000001` : exactly the file whose name contains the id is gone
+example : (runMain envDemo { path := some (s "/pels"), delete := some (s "0x50000001") } wDemo).world =
+    { wDemo with dir := [{ name := s "junk", data := [] }] } := by decide
+-- `-p /pels -d 5EED0000` : no candidate, nothing removed, "PEL not found"
+example : (runMain envDemo { path := some (s "/pels"), delete := some (s "5EED0000") } wDemo).world = wDemo ∧
+    (runMain envDemo { path := some (s "/pels"), delete := some (s "5EED0000") } wDemo).stdout = s "PEL not found\n" := by decide
+-- `-p /pels -l -D` : the listing wins; `-p /pels -d 50000001 -D` : the single delete wins
+example : (runMain envDemo { path := some (s "/pels"), list := true, deleteAll := true } wDemo).world = wDemo ∧
+    (runMain envDemo { path := some (s "/pels"), delete := some (s "50000001"), deleteAll := true } wDemo).world =
+      { wDemo with dir := [{ name := s "junk", data := [] }] } := by decide
+-- the hypotheses of `command_delete_exact` hold for `-p /pels -D` in `wDemo`
+example : ({ path := some (s "/pels"), deleteAll := true } : Args).NoHigherMode ∧
+    ({ path := some (s "/pels"), deleteAll := true } : Args).NoDisplayMode ∧ wDemo.pathIsDir = true :=
+  ⟨⟨rfl, rfl, rfl, rfl, rfl, rfl, rfl⟩, ⟨rfl, rfl, rfl⟩, rfl⟩
+-- `-p /pels -j -o /out` on two undecodable files: nothing is created anywhere, two diagnostics
+example : (runMain envDemo { path := some (s "/pels"), json := true, outputDir := some (s "/out") } wDemo).world = wDemo ∧
+    (runMain envDemo { path := some (s "/pels"), json := true, outputDir := some (s "/out") } wDemo).diagnostics = 2 := by decide
+
+-- with real PELs (`wPels`: a hidden PEL, an undecodable file, a selected PEL): `-j -o /out -E` writes two documents into `/out` and leaves
+-- `/pels` alone; `-j -E` writes them into `/pels`; `-j -c -o /out` (default selection) writes one and removes exactly its input
+example : (runMain envDemo { path := some (s "/pels"), json := true, outputDir := some (s "/out"), every := true } wPels).world.dir = wPels.dir ∧
+    ((runMain envDemo { path := some (s "/pels"), json := true, outputDir := some (s "/out"), every := true } wPels).world.out.map
+      (fun d => d.map (·.name))) = some [s "b_50000002.50000002.json", s "a_50000001.50000001.json"] ∧
+    ((runMain envDemo { path := some (s "/pels"), json := true, every := true } wPels).world.dir.map (·.name)) =
+      [s "b_50000002", s "junk", s "a_50000001", s "b_50000002.50000002.json", s "a_50000001.50000001.json"] ∧
+    ((runMain envDemo { path := some (s "/pels"), json := true, clean := true, outputDir := some (s "/out") } wPels).world.dir.map (·.name)) =
+      [s "b_50000002", s "junk"] ∧
+    ((runMain envDemo { path := some (s "/pels"), json := true, clean := true, outputDir := some (s "/out") } wPels).world.out.map
+      (fun d => d.map (·.name))) = some [s "a_50000001.50000001.json"] ∧
+    (runMain envDemo { path := some (s "/pels"), json := true, clean := true, outputDir := some (s "/out") } wPels).world.subdirs = [s "archive"] := by
+  decide +kernel
 
 end Pel.C11
